@@ -105,6 +105,7 @@ PROPS = {
     ),
     "C13": dict(
         units=["noise"],
+        kani=["noise_buffer"],
         level="proof",
         level_text="Deductive proof (Verus) over the real text of noise::bytes::Buffer (all 12 methods, against a Seq<u8> window view: "
                    "push appends exactly min(capacity,len) bytes, take drops a prefix, shift keeps the content and regains the consumed "
@@ -199,6 +200,7 @@ PROPS = {
     ),
     "C14": dict(
         units=["mux"],
+        kani=["mux_header"],
         level="proof",
         level_text="Deductive proof (Verus) over the real text of mux/header.rs (all functions), Mux::process_inbound_frames, "
                    "ReadStream::read_exact, WriteStream::write_all, WriteReusableStream::send_data, ReadReusableStream::recv_open, "
@@ -303,7 +305,7 @@ PROPS = {
         assumptions=[],
     ),
     "C10": dict(
-        units=["mux", "noise", "qc", "replica"],
+        units=["mux", "noise", "qc", "replica", "conv"],
         kani=["std_conv"],
         level="proof",
         level_text="For an EXPLICIT LIST of entry points, panic-freedom for every input as Verus obligations on the real text (arithmetic "
@@ -315,11 +317,12 @@ PROPS = {
                    "verify + add (incl. the assert_eq! in Signers::weight), get_implied_block/high_vote/high_qc under verify()'s postcondition; "
                    "ViewNumber::next, View::next_view, ProposalJustification::view, ChonkyMsg/ConsensusMsg::view_number, the selection function "
                    "and the four replica handlers before and after verification. Allocation in process_inbound_frames happens only after "
-                   "the size permits are held. Thorough tier: Kani (complete, loop-free) on the real protobuf crate: Duration/Timestamp "
-                   "decoding is total, Duration and SocketAddr round-trip.",
+                   "the size permits are held; GenesisRaw::read / build: what decodes has the protocol version build() handles, so Genesis::read "
+                   "(which re-encodes to compute the hash) never reaches unreachable!(). Kani (complete, loop-free) on the real protobuf crate: "
+                   "Duration/Timestamp decoding is total, every decodable Duration is re-encoded without overflow (F7), Duration and SocketAddr round-trip.",
         level_note="Not covered, and said so: prost decoding, quick_protobuf in canonical_raw, snow and tokio internals, the RPC service loop, "
-                   "preface, GenesisRaw::read "
-                   "(fixed F5, straight-line, not under contract). 'Never buffers more than its limits' is the permit accounting of C14 only.",
+                   "preface, Utc's Display/Debug "
+                   "(panic for out-of-range timestamps; only the optional debug page formats stored announcements). 'Never buffers more than its limits' is the permit accounting of C14 only.",
         technique="contract-based deductive verification (Verus panic-freedom obligations on extracted real functions) + Kani complete harnesses on real leaf decoders",
         design_ref="DESIGN.md §5 C10",
         assumptions=[],
@@ -337,15 +340,17 @@ PROPS = {
                    "(BTreeMap <-> two parallel repeated fields in key order, loop invariant over the zip), ProposalJustification, LeaderProposal "
                    "(incl. empty-but-present payloads), ReplicaNewView, ChonkyMsg, ConsensusMsg, FinalBlock, PreGenesisBlock, Block, Proposal, "
                    "ChonkyV2State, ReplicaState (the stored state), ValidatorInfo, LeaderSelection(Mode), NetAddress, Msg, Signed<V> with the three "
-                   "Variant impls, and the generic helpers required / read_required / read_optional. Kani (complete harnesses on the real "
-                   "crates, concrete counterexamples): Duration, SocketAddr (all addresses and ports), Phase, View, ReplicaCommit round-trip; "
-                   "Duration/Timestamp decoding total.",
+                   "Variant impls, bit_vec::BitVec (against the documented to_bytes/from_bytes/truncate semantics; lengths that are not multiples "
+                   "of 8 included), roles::node Msg / Signed<V>, the preface Encryption / Endpoint messages, the consensus handshake, the RPC "
+                   "requests and responses of consensus, get_block and ping, and the generic helpers required / read_required / read_optional. Kani (complete harnesses on the real "
+                   "crates, concrete counterexamples): Duration (EVERY decodable value, after fix F7), SocketAddr (all addresses and ports), Phase, "
+                   "View, ReplicaCommit round-trip; Duration/Timestamp decoding total.",
         level_note="NOT decided: the protobuf wire layer (prost, quick_protobuf, the reflection-driven canonical_raw, the build-time schema "
                    "check) -- sentences 2 and 3 of the statement stay with the existing tests. Assumed leaves (A3/A2): ByteFmt of keccak digests, "
                    "ProtoFmt of PublicKey/Signature/AggregateSignature (blst), of bit_vec::BitVec (from_bytes/to_bytes/truncate), of SocketAddr and "
                    "Utc inside the Verus unit (SocketAddr is decided by Kani). Schedule / Genesis decode through Schedule::new (validation + "
-                   "sort) and are not under the round-trip contract (it holds only for values satisfying the type's invariant); network-crate "
-                   "handshake / RPC messages are not yet extracted. `enc` (one spec function per type) is the wire schema mapping: a deliberate "
+                   "sort) and are not under the round-trip contract (it holds only for values satisfying the type's invariant); the gossip "
+                   "handshake (semver), push_validator_addrs, push_block_store_state and push_tx requests are not extracted. `enc` (one spec function per type) is the wire schema mapping: a deliberate "
                    "format change has to change it. Vec equality is content equality; BTreeMap iterates in strictly increasing key order (A1).",
         technique="contract-based deductive verification (Verus: round-trip contract on the ProtoFmt trait, real impl blocks, proto types generated from .proto) + Kani complete harnesses on the real leaf conversions",
         design_ref="DESIGN.md §5 C09",
